@@ -465,7 +465,12 @@ def _dch_spec(ex, env):
     ct = Obj('NamedTypes', {}, {'__getitem__': lambda ex2, self, name: Obj('NamedType', {'asn1Object': Obj('Asn1Type', {'__id__': D_TYPE(toint(name))},
                                                                                                        name='alternativeType')}, name='namedType'),
                                 '__contains__': lambda ex2, self, name: D_HAS(toint(name))}, name='componentType')
-    return Obj('Choice', {'componentType': ct}, {'clone': clone}, name='asn1Spec')
+    def subscript(ex2, self, name):
+        # Choice.__getitem__ instantiates and *selects* the alternative in the object it is applied to: applied to the guiding
+        # type it changes the schema (C12)
+        self.fields['subscribed'] = True
+        return Obj('Asn1Type', {'__id__': D_TYPE(toint(name))}, name='alternativeType')
+    return Obj('Choice', {'componentType': ct, 'subscribed': False}, {'clone': clone, '__getitem__': subscript}, name='asn1Spec')
 
 
 def _dch_mapping(ex, env):
@@ -480,18 +485,20 @@ def _none_before(ex, keys, upto):
 
 
 NATIVE_DEC_CHOICE = Contract(
-    id='native.decoder::ChoicePayloadDecoder.__call__', file=ND, qual='ChoicePayloadDecoder.__call__', properties=['C17', 'C19'],
+    id='native.decoder::ChoicePayloadDecoder.__call__', file=ND, qual='ChoicePayloadDecoder.__call__', properties=['C17', 'C19', 'C12'],
     params=dict(keys=_PIntTuple(), self=PObj('ChoicePayloadDecoder'), pyObject=PDerived(_dch_mapping), asn1Spec=PDerived(_dch_spec),
                 decodeFun=PConst(FnV(_d_decode, 'decodeFun')), options=POptions()),
     globals={'none_before': FnV(_none_before, 'none_before'), 'is_alternative': FnV(lambda ex, n: D_HAS(toint(n)), 'is_alternative'),
              'conv': FnV(lambda ex, n: D_DEC(D_PY(toint(n)), D_TYPE(toint(n))), 'conv')},
-    loops={0: Loop(index='k', invariant=['none_before(loop_seq, k)', 'asn1Value.assignments == 0'],
-                   havoc_fields=['asn1Value.chosen', 'asn1Value.value', 'asn1Value.assignments'])},
+    loops={0: Loop(index='k', invariant=['none_before(loop_seq, k)', 'asn1Value.assignments == 0', 'not asn1Spec.subscribed'],
+                   havoc_fields=['asn1Value.chosen', 'asn1Value.value', 'asn1Value.assignments', 'asn1Spec.subscribed'])},
     ensures=[
         ('at-most-one-alternative-set', 'result.assignments <= 1'),
         ('the-first-key-that-names-an-alternative', 'result.assignments == 1 ==> (is_alternative(result.chosen) and '
                                                     'result.value == conv(result.chosen))'),
-        ('nothing-chosen-only-if-no-key-names-one', 'result.assignments == 0 ==> none_before(keys, len(keys))')],
+        ('nothing-chosen-only-if-no-key-names-one', 'result.assignments == 0 ==> none_before(keys, len(keys))'),
+        # C12: the guiding type is read through its declaration (componentType), never subscripted
+        ('guiding-type-not-touched', 'not asn1Spec.subscribed')],
     note='D_HAS here means "names an alternative of the CHOICE"')
 CONTRACTS = CONTRACTS + [NATIVE_DEC_COLLECTION, NATIVE_DEC_CHOICE]
 
